@@ -4,7 +4,7 @@ The router's `run` function is located by role: it calls IpcReceiverSet::select 
 boxed FnMut handler.  Per-event facts (event kind, wake-up test, control-message kind) are
 accumulated along feasible paths, so the rules do not depend on the order in which the source
 tests them (match guard, nested if, early computed bool...)."""
-from vlib.flow import Explorer, Tracer, chain_calls, edge_label
+from vlib.flow import Explorer, Tracer, chain_calls, edge_label, ref_place
 from vlib.mir import callee_name, op_const, op_local, op_place, strip_generics
 
 SELECT = ("ipc::IpcReceiverSet::select",)
@@ -89,15 +89,56 @@ class RunModel:
                     return True
         return False
 
+    def state_local(self):
+        """the router's state: the `self` parameter, or -- when run() builds the state itself -- the local of the type that holds the handler table"""
+        if getattr(self, "_state", None) is None:
+            self._state = 1
+            def has_table(adt):
+                a = self.F.adts.get(adt)
+                return bool(a) and any("HashMap<" in fl["t"] and "FnMut" in fl["t"] for fl in a["variants"][0]["fields"])
+            if not (self.f.argc >= 1 and has_table(self.f.local_adt(1))):
+                for i, l in enumerate(self.f.locals):
+                    if i > self.f.argc and not l["t"].startswith(("&", "*")) and has_table(l["adt"]):
+                        self._state = i
+                        break
+        return self._state
+
     def is_self_field(self, operand, ty_pred=None):
-        for r in self.tr.roots_of_operand(operand):
-            if r.kind == "param" and r.id == 1 and r.field_names():
-                return r.field_names()[0]
+        sl = self.state_local()
+        if sl == 1 and self.f.argc >= 1:
+            for r in self.tr.roots_of_operand(operand):
+                if r.kind == "param" and r.id == 1 and r.field_names():
+                    return r.field_names()[0]
+            return None
+        a = self.F.adts.get(self.f.local_adt(sl))
+        fields = a["variants"][0]["fields"] if a else []
+        # a reference to / a copy of a field of the state local: follow borrows, re-borrows and plain copies back to `state.field`
+        pl = op_place(operand)
+        for _ in range(32):
+            if pl is None:
+                return None
+            fp = [e["f"] for e in pl.get("p", []) if isinstance(e, dict) and "f" in e]
+            if pl["l"] == sl:
+                return fields[fp[0]]["n"] if fp and fp[0] < len(fields) else None
+            ds = [d for d in self.f.defs().get(pl["l"], []) if not self.f.is_cleanup(d[0]) and not (d[1] is not None and d[2]["lhs"].get("p"))]
+            if len(ds) != 1:
+                return None
+            b, si, node = ds[0]
+            if si is None:
+                from vlib.flow import transparent
+                trn = transparent(node)
+                pl = op_place(node["args"][trn[0]]) if trn is not None and node["args"] else None
+            elif node["rv"]["r"] in ("ref", "raw"):
+                pl = node["rv"]["pl"]
+            elif node["rv"]["r"] in ("use", "cast"):
+                pl = op_place(node["rv"]["a"][0])
+            else:
+                return None
         return None
 
     def handlers_field(self):
-        """name of self's field of type HashMap<u64, Box<dyn FnMut..>>"""
-        adt = self.f.local_adt(1)
+        """name of the state's field of type HashMap<u64, Box<dyn FnMut..>>"""
+        adt = self.f.local_adt(self.state_local())
         a = self.F.adts.get(adt)
         if not a:
             return None
